@@ -518,6 +518,8 @@ pub fn contexts() -> Vec<Context> {
         ("(□)\\1*", cat(vec![grp(h0()), star(Node::Backref(1))])),
         ("(?:(□)x\\1)+", plus(cat(vec![grp(h0()), x(), Node::Backref(1)]))),
         ("(□)(□')\\2\\1", cat(vec![grp(h0()), grp(h1()), Node::Backref(2), Node::Backref(1)])),
+        ("((□)□')\\2*□'", cat(vec![grp(cat(vec![grp(h0()), h1()])), star(Node::Backref(2)), h1()])),
+        ("((□)□')\\1?\\2+", cat(vec![grp(cat(vec![grp(h0()), h1()])), opt(Node::Backref(1)), plus(Node::Backref(2))])),
         ("(?=(□))\\1", cat(vec![la(grp(h0())), Node::Backref(1)])),
         ("(?>□)(□')\\1", cat(vec![atomic(h0()), grp(h1()), Node::Backref(1)])),
         ("(?<=x)(□)\\1□'", cat(vec![lb(x()), grp(h0()), Node::Backref(1), h1()])),
